@@ -117,6 +117,13 @@ TReads(D, t)   == IF t \in Leaf THEN Reads(D[t]) ELSE TaskSpec[t].deps
 TWrites(t)     == IF t \in Leaf THEN {t}         ELSE TaskSpec[t].targets
 WrittenBy(S)   == UNION {TWrites(t) : t \in S}
 
+(* NESTED UPDATES.  A function task of kind "nest" does not write its output directly: its action ASSIGNS THROUGH THE MANAGER (s['d'] = ... inside  *)
+(* the action), i.e. it starts a complete inner set_value while the outer one is still running.  It declares no targets (the inner update takes     *)
+(* care of the consequences), so for the outer graph it writes nothing; NOut is the location its inner assignment names.                              *)
+IsNest(t)      == t \in TaskIds /\ TaskSpec[t].kind = "nest"
+NOut(t)        == TaskSpec[t].nout
+WrittenByA(S)  == WrittenBy(S) \cup {NOut(t) : t \in {x \in S : IsNest(x)}}
+
 Reported(D, u, t) == TTargets(D, u) \cap TDeps(D, t) # {}                    \* what rtasks encodes
 Produces(D, u, t) == \E w \in TWrites(u), p \in TReads(D, t) : Comparable(w, p)   \* true data flow
 
@@ -126,12 +133,14 @@ Close(D, R, T) == LET N == T \cup {t \in Act(D, R) : \E u \in T : Reported(D, u,
 (* find_tasks(ref._get_dependencies()): start from the assigned location and its enclosing containers *)
 Triggered(D, R, l) == Close(D, R, {t \in Act(D, R) : TDeps(D, t) \cap Chain(l) # {}})
 
+(* data flow INCLUDING what nested updates write: a definition a := f(d) next to a nested task a -> d would recurse for ever *)
+ProducesA(D, u, t) == Produces(D, u, t) \/ (IsNest(u) /\ \E p \in TReads(D, t) : Comparable(NOut(u), p))
 RECURSIVE ReachP(_, _, _)
-ReachP(D, A, T) == LET N == T \cup {t \in A : \E u \in T : Produces(D, u, t)}
+ReachP(D, A, T) == LET N == T \cup {t \in A : \E u \in T : ProducesA(D, u, t)}
                    IN IF N = T THEN T ELSE ReachP(D, A, N)
 (* acyclic true data flow: no task is (transitively) its own producer *)
 Acyclic(D, R) == LET A == Act(D, R)
-                 IN \A t \in A : t \notin ReachP(D, A, {x \in A : Produces(D, t, x)})
+                 IN \A t \in A : t \notin ReachP(D, A, {x \in A : ProducesA(D, t, x)})
 
 RECURSIVE ReachR(_, _, _)
 ReachR(D, T, S) == LET N == S \cup {t \in T : \E u \in S : u # t /\ Reported(D, u, t)}
@@ -147,6 +156,7 @@ RunTask(D, s, t) ==
   ELSE LET sp == TaskSpec[t] IN
     IF sp.kind = "obs" THEN s                                                        \* a FunctionTask without targets (an observer): runs, writes nothing
     ELSE IF sp.kind = "fn" THEN [s EXCEPT !.m[sp.out] = s.m[sp.ins[1]] + s.m[sp.ins[2]]]   \* FunctionTask.run
+    ELSE IF sp.kind = "nest" THEN [s EXCEPT !.m[sp.nout] = s.m[sp.ins[1]] + s.m[sp.ins[2]]] \* the WRITE of the inner set_value; its tasks follow in the flat order
     ELSE LET delta == s.m[sp.src] - s.kp[t]                                       \* LinearKnob.run
          IN [m  |-> [x \in Leaf |-> IF \E i \in 1..Len(sp.tl) : sp.tl[i] = x
                                     THEN s.m[x] + sp.w[CHOOSE i \in 1..Len(sp.tl) : sp.tl[i] = x] * delta
@@ -167,6 +177,19 @@ PermSeqs(S) == IF S = {} THEN {<<>>} ELSE UNION {{<<x>> \o q : q \in PermSeqs(S 
 (* the orders the specification allows: linear extensions of true data flow *)
 Allowed(D, T) == {q \in PermSeqs(T) : \A i, j \in 1..Len(q) : i < j => ~Produces(D, q[j], q[i])}
 Prec(D, T)    == {<<u, t>> \in T \X T : u # t /\ Produces(D, u, t)}
+
+(* The flat run orders of an update whose triggered set is T: an allowed order of T in which every nested task is followed at once by a flat order   *)
+(* of ITS inner update (the tasks triggered by NOut, which may run a second time later in the outer order: two updates, each running its own        *)
+(* triggered set once).  Without nested tasks this is Allowed(D, T).  Terminates because the data flow including nested writes is acyclic.           *)
+RECURSIVE FlatOrders(_, _, _), ExpandSet(_, _, _)
+ExpandSet(D, R, q) == IF q = <<>> THEN {<<>>}
+                      ELSE LET t     == Head(q)
+                               heads == IF IsNest(t) THEN {<<t>> \o n : n \in FlatOrders(D, R, Triggered(D, R, NOut(t)))} ELSE {<<t>>}
+                               rest  == ExpandSet(D, R, Tail(q))
+                           IN {h \o r : h \in heads, r \in rest}
+FlatOrders(D, R, T) == IF \A t \in T : ~IsNest(t) THEN Allowed(D, T) ELSE UNION {ExpandSet(D, R, q) : q \in Allowed(D, T)}
+RangeOf(q) == {q[i] : i \in 1..Len(q)}
+HasNest(T) == \E t \in T : IsNest(t)
 
 ---------------------------------------------------------------------------
 (* Derived indices (supports only): what the queries of C03 must answer.   *)
@@ -192,7 +215,7 @@ Init == /\ mem = InitMem
 Unchanged == UNCHANGED <<mem, defs, reg, kprev, frozen, ghost>>
 
 (* no two writers for one location *)
-FreeTarget(l) == \A t \in reg : l \notin TaskSpec[t].targets
+FreeTarget(l) == \A t \in reg : l \notin TaskSpec[t].targets /\ (TaskSpec[t].kind = "nest" => l # TaskSpec[t].nout)
 
 (* Function / knob tasks carry DECLARED dependency and target sets which the manager takes literally (no owner   *)
 (* chains are added for them).  A declaration that understates what a reader sees (a knob declared to write    *)
@@ -204,18 +227,20 @@ WellDeclared(D, R) == \A u \in R : \A t \in Act(D, R) : Produces(D, u, t) => Rep
 (* The canonical order is only a representative: Confluent asserts every allowed order agrees.     *)
 Update(a, l, D1, m1) ==
   LET T   == TLCEval(Triggered(D1, reg, l))
-      ord == Allowed(D1, T)
+      ord == FlatOrders(D1, reg, T)
       s0  == [m |-> m1, kp |-> kprev]
       res == {RunSeq(D1, s0, q) : q \in ord}
       s1  == CHOOSE r \in res : TRUE
+      TA  == RangeOf(CHOOSE q \in ord : TRUE)             \* every task that runs, inner updates included (the same set for every flat order)
   IN /\ Assert(ord # {}, <<"no allowed order", a, l>>)
      /\ Assert(Cardinality(res) = 1, <<"not confluent", a, l, res>>)
      /\ mem' = s1.m
      /\ kprev' = s1.kp
      /\ defs' = D1
-     /\ ghost' = {x \in Leaf : x \in ghost /\ x # l /\ x \notin WrittenBy(T)}        \* every triggered task ran: its targets are fresh
+     /\ ghost' = {x \in Leaf : x \in ghost /\ x # l /\ x \notin WrittenByA(TA)}      \* every triggered task ran: its targets are fresh
      /\ UNCHANGED <<reg, frozen>>
      /\ last' = TLCEval(a @@ [exc |-> "none", trig |-> AsSeq(T), prec |-> AsSeq(Prec(D1, T)), cyc |-> StructCyclic(D1, T),
+                              flat |-> IF HasNest(T) THEN AsSeq(ord) ELSE <<>>,      \* with nested updates the observed run list must be one of these
                               idx |-> Idx(D1, reg)])
 
 Refuse(a) == /\ Unchanged
@@ -288,6 +313,7 @@ RegisterTask(t) ==
   LET a == [a |-> "RegisterTask", t |-> t] IN
   /\ t \in TaskIds \ reg
   /\ \A x \in TaskSpec[t].targets : defs[x] = NoDef /\ FreeTarget(x)
+  /\ (TaskSpec[t].kind = "nest" => defs[TaskSpec[t].nout] = NoDef /\ FreeTarget(TaskSpec[t].nout))     \* the inner assignment must not replace a definition
   /\ Acyclic(defs, reg \cup {t})
   /\ WellDeclared(defs, reg \cup {t})
   /\ IF frozen THEN Refuse(a)
@@ -312,14 +338,14 @@ Stutter(kind) == /\ Unchanged
 (* first k-1 scheduled tasks have taken effect, nothing after.  One successor per allowed order.         *)
 FaultUpdate(a, l, D1, m1) ==
   LET T == TLCEval(Triggered(D1, reg, l)) IN
-  \E q \in Allowed(D1, T) : \E k \in 0..Len(q) :
+  \E q \in FlatOrders(D1, reg, T) : \E k \in 0..Len(q) :          \* with nested updates: any position of the flat order (the failure travels up through the nested task's run)
     LET s0 == [m |-> IF k = 0 THEN mem ELSE m1, kp |-> kprev]
         s1 == RunSeq(D1, s0, SubSeq(q, 1, k - 1))
     IN /\ mem' = s1.m
        /\ kprev' = s1.kp
        /\ defs' = D1
        /\ ghost' = {x \in Leaf : \/ x \in ghost                                          \* the targets of the tasks that did not run are stale
-                                  \/ x \in WrittenBy({q[i] : i \in (IF k = 0 THEN 1 ELSE k)..Len(q)})
+                                  \/ x \in WrittenByA({q[i] : i \in (IF k = 0 THEN 1 ELSE k)..Len(q)})
                                   \/ (k = 0 /\ x = l /\ D1[l] # NoDef)}                    \* a new definition whose first evaluation was not stored
        /\ UNCHANGED <<reg, frozen>>
        /\ last' = TLCEval(a @@ [exc |-> "Fault", k |-> k, ran |-> SubSeq(q, 1, k - 1),
@@ -348,7 +374,7 @@ SetExprFault(l, e) ==
 (*   copy_keep  : as copy_plain with overwrite = FALSE into a manager that already defines KeepLoc by       *)
 (*                KeepExpr: that definition survives, the others are copied.  load() registers without       *)
 (*                running, so the dependants of KeepLoc are stale until it is assigned again (ghost).        *)
-Picklable == \A t \in reg : TaskSpec[t].kind # "fn"          \* a FunctionTask closure is not picklable
+Picklable == \A t \in reg : TaskSpec[t].kind \notin {"fn", "nest"}          \* a FunctionTask closure is not picklable
 
 Transfer(kind) ==
   LET a == [a |-> "Transfer", kind |-> kind] IN
@@ -471,7 +497,8 @@ EpSafe == IF ~Episodes \/ TLCGet("config").mode # "bfs" \/ frozen \/ ghost # {} 
           ELSE {l \in Leaf : /\ defs[l] = NoDef
                              /\ LET T == Triggered(defs, reg, l) IN
                                 /\ ~StructCyclic(defs, T)
-                                /\ RunSeq(defs, [m |-> mem, kp |-> kprev], Topo(defs, T)) = [m |-> mem, kp |-> kprev]}
+                                /\ RunSeq(defs, [m |-> mem, kp |-> kprev], IF HasNest(T) THEN CHOOSE q \in FlatOrders(defs, reg, T) : TRUE ELSE Topo(defs, T))
+                                     = [m |-> mem, kp |-> kprev]}
 
 (* emission for the conformance harness: every generated transition, source and target state in full *)
 (* (EpSafe is only needed for states that are the source of an emitted transition, i.e. not for the last layer)    *)
